@@ -63,13 +63,32 @@ def measured():
             m = re.match(r"(C\d+) rc=(\d+) (\d+) violations; (\d+) known; C\d+ thorough: runs=(\d+) nontrivial=(\d+) distinct=\d+ steps=(\d+) sim=(\d+)s", l)
             if m:
                 out.append("    %s exit=%s violations=%s known=%s runs=%s non-trivial=%s steps=%s simulated=%ss" % m.groups())
+    else:
+        out += kept("Thorough tier, last full sweep")
     lp = V + "/.build/selftest-det.log"
-    if os.path.exists(lp):
+    if not os.path.exists(lp):
+        out += kept("Determinism self-test (")
+    else:
         lines = [l for l in open(lp).read().splitlines() if l.startswith("determinism ") or "MISMATCH" in l]
         if lines:
             out += ["", "Determinism self-test (`./check selftest determinism`, each scenario executed by four separate process groups at GOMAXPROCS 1, 1, 4, 16, per-run event-log hashes compared):", ""]
             out += ["    " + l for l in lines]
     return "\n".join(out)
+
+def kept(head):
+    """the sub-section of the committed DESIGN.md that starts with `head` (used when the log it was made from is gone)"""
+    cur = open(V + "/DESIGN.md").read()
+    m = re.search(r"<!-- BEGIN:measured -->(.*?)<!-- END:measured -->", cur, flags=re.S)
+    if not m or head not in m.group(1):
+        return []
+    lines = m.group(1).split("\n")
+    i = next(k for k, l in enumerate(lines) if l.startswith(head))
+    res = [lines[i], ""]
+    for l in lines[i + 2:]:
+        if not l.startswith("    "):
+            break
+        res.append(l)
+    return [""] + res
 
 def main():
     p = V + "/DESIGN.md"
